@@ -6,7 +6,7 @@ Require Extraction.
 Require Import ExtrOcamlBasic.
 From Verif Require Import Base.Str Base.Lines Base.Outcome.
 From Verif Require Import Model.RuleId Model.Root Model.Renumber Model.Copyright Model.Patterns Model.ParseLine Model.Format Model.Update.
-From Verif Require Import Model.Passes Model.CmdLine Model.Parser Model.Assembler Model.Generate Model.Cli Model.CliInst Model.SelfUpdate Regex.Re Regex.Equiv.
+From Verif Require Import Model.Passes Model.CmdLine Model.Parser Model.Assembler Model.Generate Model.Cli Model.CliInst Model.SelfUpdate Model.DefsTok Regex.Re Regex.Equiv.
 From Verif Require Import Gen.Consts.
 Extraction Language OCaml.
 Extraction "model.ml"
@@ -29,6 +29,7 @@ Extraction "model.ml"
   Generate.generate Generate.parse_only Generate.to_parsed
   CliInst.cli_update_all CliInst.cli_update_one CliInst.cli_compare_all CliInst.cli_format_all CliInst.cli_format_one CliInst.cli_format_check_all
   CliInst.cli_renumber_all CliInst.cli_renumber_check_all CliInst.cli_copyright_all Cli.compare_all_status Cli.format_target
+  DefsTok.tok_expand DefsTok.tokenize DefsTok.tokdefs DefsTok.detok
   SelfUpdate.self_update_ranked Consts.self_update_validates
   Equiv.equivalent Equiv.included
   Consts.parse_uint_bits Consts.max_scan_token_size Consts.scan_limit_parser_parse Consts.scan_limit_assembler_assemble Consts.scan_limit_format_process_file Consts.scan_limit_renumber_process_yaml Consts.scan_limit_copyright_update_rules Consts.scan_limit_replace_suffixes Consts.scan_limit_remove_exclusions Consts.scan_limit_build_inclusion_line_map Consts.standard_header.
